@@ -37,6 +37,8 @@ func Replay(r *hk.Replay) int {
 	switch r.Engine {
 	case "conc":
 		return conc.ReplayFile(r)
+	case "conc-race":
+		return conc.ReplayRace(r)
 	case "seq":
 		return seq.ReplayFile(r)
 	case "enum":
